@@ -164,6 +164,7 @@ func runC18(t *testing.T, p *Plan) *Outcome {
 			s.Settle()
 		}
 		drainNow := false
+		strict := p.K("drain_each") == 1 && (Avoiding(p, "C18/reordered") || Avoiding(p, "C18/lost") || Avoiding(p, "C18/delivered-to-unsubscribed"))
 		for i, op := range p.Ops {
 			if o.Sig != "" {
 				break
@@ -183,7 +184,7 @@ func runC18(t *testing.T, p *Plan) *Outcome {
 					fail("publish-failed", fmt.Sprintf("op %d %q: %s", i, op.Args, r))
 					break
 				}
-				if p.K("drain_each") == 1 && (Avoiding(p, "C18/reordered") || Avoiding(p, "C18/lost") || Avoiding(p, "C18/delivered-to-unsubscribed")) {
+				if strict {
 					// open findings: delivery is asynchronous (per-message goroutines, subscriber set read at
 					// dequeue time). In half of the runs every message is fully delivered before the next command,
 					// so that anything else that goes wrong with delivery is not hidden behind those findings.
@@ -425,7 +426,13 @@ func runC18(t *testing.T, p *Plan) *Outcome {
 						if equalStrings(g, w) {
 							continue
 						}
-						fail(classifyDelivery(g, w), fmt.Sprintf("connection %d, subscription %q, publisher %d: received %v, expected %v", c, n, pb, g, w))
+						cls := classifyDelivery(g, w)
+						if strict {
+							// every message was fully delivered before the next command ran: the asynchronous-delivery
+							// findings cannot explain this
+							cls = "strict/" + cls
+						}
+						fail(cls, fmt.Sprintf("connection %d, subscription %q, publisher %d: received %v, expected %v", c, n, pb, g, w))
 					}
 				}
 			}
